@@ -53,6 +53,15 @@ def strategy(shard):
     return case()
 
 
+def _exact_tie(prefix, N, t):
+    """total == N t exactly, with every number on the 1/64 grid (then the library's float sum is exact too)"""
+    from fractions import Fraction
+
+    if not all((float(v) * 64).is_integer() for v in prefix) or not (float(t) * 64).is_integer():
+        return False
+    return sum(Fraction(v) for v in prefix) == Fraction(t) * N
+
+
 def _same(a, b):
     return a == b or (math.isnan(a) and math.isnan(b))
 
@@ -144,6 +153,11 @@ def evaluate(case, out):
             if not (math.isnan(a2) or math.isnan(b2)):
                 if not out.expect(a2 <= b2, "truncation-raises-last-entry", lambda: (a2, b2, kk)):
                     break
+                if N is not None and _exact_tie(x[:kk], N, t):
+                    # the total sits exactly on the most the null allows: the null can still be true, nothing is decided
+                    out.cls("prefix-total==Nt-exactly")
+                    if not out.expect(a2 == b2, "truncation-at-a-tie-with-the-null-total-changes-the-last-entry", lambda: (a2, b2, kk)):
+                        break
     except Exception as e:  # noqa
         out.lib_exception("test", e)
         return
